@@ -17,6 +17,7 @@ import (
 	"strconv"
 	"strings"
 	"sync"
+	"sync/atomic"
 	"syscall"
 	"time"
 
@@ -86,6 +87,8 @@ type scriptOut struct {
 	Asserts   map[string]int `json:"asserts,omitempty"`
 	Plan      string         `json:"plan"`
 	GaveUp    string         `json:"gave_up,omitempty"`
+	Ctx       map[string]int `json:"ctx,omitempty"`     // context flavour -> traces recorded under it
+	Inconcl   []string       `json:"inconcl,omitempty"` // undecided probes
 	SlowCalls int            `json:"slow_calls,omitempty"`
 	Detail    []rec          `json:"detail,omitempty"`
 	Probe     map[string]any `json:"probe,omitempty"`
@@ -282,11 +285,42 @@ func intOf(v any) int {
 }
 
 // ---------------------------------------------------------------------------
+// context flavours: the context the embedder calls the guest with must not
+// matter to a default-configuration guest
+
+type ctxKey struct{}
+
+type ctxFlavour struct {
+	name string
+	mk   func() (context.Context, context.CancelFunc)
+}
+
+var flavours = []ctxFlavour{
+	{"background", func() (context.Context, context.CancelFunc) { return context.Background(), func() {} }},
+	{"value-only", func() (context.Context, context.CancelFunc) {
+		return context.WithValue(context.Background(), ctxKey{}, "c18"), func() {}
+	}},
+	{"with-cancel", func() (context.Context, context.CancelFunc) { return context.WithCancel(context.Background()) }},
+	{"with-timeout-1h", func() (context.Context, context.CancelFunc) {
+		return context.WithTimeout(context.Background(), time.Hour)
+	}},
+	{"with-deadline-far", func() (context.Context, context.CancelFunc) {
+		return context.WithDeadline(context.Background(), time.Now().AddDate(50, 0, 0)) // only "far away"; never read back
+	}},
+	{"value(with-cancel)", func() (context.Context, context.CancelFunc) {
+		c, cancel := context.WithCancel(context.Background())
+		return context.WithValue(c, ctxKey{}, "c18"), cancel
+	}},
+}
+
+// ---------------------------------------------------------------------------
 // one guest instance under the default configuration
 
 type inst struct {
 	p        *procEnv
 	eng      *engineEnv
+	ctx      context.Context // the context the guest's functions are called with
+	flavour  string
 	label    string
 	mod      api.Module
 	shadow   []byte
@@ -314,7 +348,7 @@ func (p *procEnv) newInst(e *engineEnv, label string, second ...bool) (*inst, er
 		return nil, err
 	}
 	p.insts++
-	return &inst{p: p, eng: e, label: label, mod: mod, shadow: make([]byte, memSize)}, nil
+	return &inst{p: p, eng: e, ctx: p.ctx, flavour: "background", label: label, mod: mod, shadow: make([]byte, memSize)}, nil
 }
 
 var (
@@ -359,6 +393,18 @@ func (cc *callCtx) find(sig, detail string, call int, where string, got, want an
 		}
 	}
 	if len(cc.so.Findings) < 12 {
+		cc.so.Findings = append(cc.so.Findings, finding{Sig: sig, Detail: detail, Call: call, Where: where, Got: got, Want: want})
+	}
+}
+
+// findN is find with its own cap (the probe reports one finding per flavour and shape).
+func (cc *callCtx) findN(max int, sig, detail string, call int, where string, got, want any) {
+	for _, f := range cc.so.Findings {
+		if f.Sig == sig {
+			return
+		}
+	}
+	if len(cc.so.Findings) < max {
 		cc.so.Findings = append(cc.so.Findings, finding{Sig: sig, Detail: detail, Call: call, Where: where, Got: got, Want: want})
 	}
 }
@@ -451,7 +497,7 @@ func (in *inst) callGuarded(c *wcall) (res []uint64, err error, blocked bool) {
 	fn := in.mod.ExportedFunction(c.Fn)
 	go func() {
 		defer close(done)
-		res, err = fn.Call(in.p.ctx, c.Args...)
+		res, err = fn.Call(in.ctx, c.Args...)
 	}()
 	if in.p.grace == nil {
 		in.p.grace = time.NewTimer(time.Hour)
@@ -864,6 +910,31 @@ func (p *procEnv) runScript(sc *scriptCase) *scriptOut {
 	}
 	so.Plan += fmt.Sprintf(" close-first-instance-before-second=%v third-instance-in-second-runtime=%v", closeFirst, secondRT)
 
+	// Context dimension: interpreter/A (the reference) is called under
+	// context.Background(); the other five instances get the five other flavours,
+	// rotated with variant and script, so every script runs under every flavour
+	// in every process. None of the contexts is ever cancelled while in use.
+	slotOf := map[string]int{"interpreter/B": 0, "interpreter/C": 1, "compiler/A": 2, "compiler/B": 3, "compiler/C": 4}
+	rot := (p.variant + sc.ID%5 + 5) % 5
+	flavourOf := map[string]string{"interpreter/A": "background"}
+	so.Ctx = map[string]int{}
+	var cancels []context.CancelFunc
+	defer func() {
+		for _, f := range cancels {
+			f()
+		}
+	}()
+	setCtx := func(in *inst) {
+		if slot, ok := slotOf[in.label]; ok {
+			f := flavours[1+(rot+slot)%5]
+			ctx, cancel := f.mk()
+			cancels = append(cancels, cancel)
+			in.ctx, in.flavour = ctx, f.name
+		}
+		flavourOf[in.label] = in.flavour
+		so.Ctx[in.flavour]++
+	}
+
 	var ref []rec // interpreter, instance A
 	traces := map[string][]rec{}
 	for _, e := range engines {
@@ -874,6 +945,7 @@ func (p *procEnv) runScript(sc *scriptCase) *scriptOut {
 			cc.find("harness:instantiate", err.Error(), -1, e.name, nil, nil)
 			continue
 		}
+		setCtx(a)
 		var ta []rec
 		for k := range calls {
 			ta = append(ta, a.run(cc, k, &calls[k]))
@@ -891,6 +963,8 @@ func (p *procEnv) runScript(sc *scriptCase) *scriptOut {
 			cc.find("harness:instantiate", fmt.Sprint(err1, err2), -1, e.name, nil, nil)
 			continue
 		}
+		setCtx(b)
+		setCtx(c)
 		var tb, tc []rec
 		for k := range calls {
 			if !b.exited {
@@ -948,9 +1022,29 @@ func (p *procEnv) runScript(sc *scriptCase) *scriptOut {
 		}
 		for i := 0; i < n; i++ {
 			if d := firstRecDiff(&ref[i], &t[i]); d != "" {
+				// Is it the context? A fresh instance of the same engine called under
+				// context.Background() that reproduces the reference says so.
+				if fl := flavourOf[l]; fl != "background" {
+					for _, e := range p.engines {
+						if strings.HasPrefix(l, e.name+"/") {
+							if x, err := p.newInst(e, l+"/recheck"); err == nil {
+								same := true
+								xc := &callCtx{so: &scriptOut{}, scanned: map[[32]byte]bool{}}
+								for k := 0; k <= i && same && !x.exited; k++ {
+									xr := x.run(xc, k, &calls[k])
+									same = recEqual(&xr, &ref[k])
+								}
+								x.close()
+								if same {
+									dim = "contexts(" + fl + ")"
+								}
+							}
+						}
+					}
+				}
 				cc.find(fnTag(&calls[i])+":"+d+":differs-across-"+dim,
-					fmt.Sprintf("call %d %s: %s of %s differs from interpreter/A in the same process", i, calls[i].Fn, d, l),
-					i, l, t[i], ref[i])
+					fmt.Sprintf("call %d %s: %s of %s (called under a %s context) differs from interpreter/A (context.Background()) in the same process", i, calls[i].Fn, d, l, flavourOf[l]),
+					i, l+" ctx="+flavourOf[l], t[i], ref[i])
 				break
 			}
 		}
@@ -970,50 +1064,217 @@ func (p *procEnv) runScript(sc *scriptCase) *scriptOut {
 	return so
 }
 
-// sleepProbe: "no real sleep". A poll_oneoff with a one hour relative clock
-// timeout (alone, and together with a stdin read subscription) must return
-// without sleeping; the differential watchdog of callGuarded decides.
+// sleepProbe is the real-sleep monitor. A default-configuration guest never
+// really sleeps, whatever the timeout and whatever context the embedder calls
+// it with. Probes = engines x context flavours x subscription shapes x {1 hour,
+// 1 year}. Every probe has its own instance and goroutine: first the control
+// (the same call with timeout 0), then the subject (huge timeout). On a correct
+// tree all of them return within microseconds. The main goroutine meanwhile
+// repeats a control call on yet another instance, paced 1ms apart. A subject
+// counts as really sleeping only if it has not returned when the watchdog
+// (>= 30s and >= 1000 completed control rounds) ends AND its own control had
+// returned: the verdict is "controls returned, subject did not"; no measured
+// duration takes part. A probe whose control did not return, or a process that
+// could not complete 1000 control rounds, is inconclusive.
+type probe struct {
+	engine, flavour, shape string
+	timeout                uint64
+	in                     *inst
+	cancel                 context.CancelFunc
+	ctl, subj              wcall
+	ctlDone, subjDone      atomic.Bool
+	ctlRet, subjRet        string
+}
+
+func probeCall(shape string, timeout uint64) wcall {
+	if shape == "sched_yield" {
+		return wcall{Fn: "sched_yield", FD: -1, Valid: true}
+	}
+	type sub struct {
+		tag   byte
+		id    uint32
+		flags uint16
+		fd    uint32
+	}
+	var subs []sub
+	switch shape {
+	case "clock-relative-realtime":
+		subs = []sub{{tag: 0, id: 0}}
+	case "clock-relative-monotonic":
+		subs = []sub{{tag: 0, id: 1}}
+	case "clock-absolute-realtime":
+		subs = []sub{{tag: 0, id: 0, flags: 1}}
+	case "clock-absolute-monotonic":
+		subs = []sub{{tag: 0, id: 1, flags: 1}}
+	case "clock-relative-monotonic+fd_write-stdout":
+		subs = []sub{{tag: 0, id: 1}, {tag: 2, fd: 1}}
+	case "fd_write-stdout+clock-relative-realtime":
+		subs = []sub{{tag: 2, fd: 1}, {tag: 0, id: 0}}
+	case "clock-relative-monotonic+fd_read-stdin":
+		subs = []sub{{tag: 0, id: 1}, {tag: 1, fd: 0}}
+	case "two-clocks-relative":
+		subs = []sub{{tag: 0, id: 0}, {tag: 0, id: 1}}
+	}
+	n := len(subs)
+	b := make([]byte, 48*n)
+	for i, s := range subs {
+		o := b[48*i:]
+		binary.LittleEndian.PutUint64(o, uint64(0x1111*(i+1)))
+		o[8] = s.tag
+		if s.tag == 0 {
+			binary.LittleEndian.PutUint32(o[16:], s.id)
+			binary.LittleEndian.PutUint64(o[24:], timeout)
+			binary.LittleEndian.PutUint16(o[40:], s.flags)
+		} else {
+			binary.LittleEndian.PutUint32(o[16:], s.fd)
+		}
+	}
+	return wcall{Fn: "poll_oneoff", Args: []uint64{1024, 2048, uint64(n), 4096}, In: []memWrite{{Off: 1024, Data: b}}, FD: -1, Valid: true}
+}
+
+var probeShapes = []string{"clock-relative-realtime", "clock-relative-monotonic", "clock-absolute-realtime", "clock-absolute-monotonic",
+	"clock-relative-monotonic+fd_write-stdout", "fd_write-stdout+clock-relative-realtime", "clock-relative-monotonic+fd_read-stdin",
+	"two-clocks-relative", "sched_yield"}
+
+// rawCall is run() without trace, scan and watchdog (used from probe goroutines).
+func rawCall(in *inst, c *wcall) string {
+	if mem, ok := in.mod.Memory().Read(0, memSize); ok {
+		for _, w := range c.In {
+			copy(mem[w.Off:], w.Data)
+		}
+	}
+	res, err := in.mod.ExportedFunction(c.Fn).Call(in.ctx, c.Args...)
+	switch {
+	case err != nil:
+		return errClass(err)
+	case len(res) == 1:
+		return "errno=" + strconv.FormatUint(res[0]&0xffffffff, 10)
+	}
+	return "void"
+}
+
+const (
+	probeWatchdog      = 30 * time.Second
+	probeControlRounds = 1000
+	probeGiveUp        = 10 * time.Minute
+)
+
 func (p *procEnv) sleepProbe(sc *scriptCase) *scriptOut {
 	so := &scriptOut{ID: sc.ID, Probe: map[string]any{}}
 	cc := &callCtx{so: so, scanned: map[[32]byte]bool{}}
-	mk := func(withStdin bool, timeout uint64) wcall {
-		n := 1
-		if withStdin {
-			n = 2
-		}
-		sub := make([]byte, 48*n)
-		binary.LittleEndian.PutUint64(sub, 0x1111)
-		sub[8] = 0
-		binary.LittleEndian.PutUint32(sub[16:], 1)
-		binary.LittleEndian.PutUint64(sub[24:], timeout)
-		if withStdin {
-			binary.LittleEndian.PutUint64(sub[48:], 0x2222)
-			sub[48+8] = 1
-		}
-		return wcall{Fn: "poll_oneoff", Note: "1h-clock-timeout", Args: []uint64{1024, 2048, uint64(n), 4096}, In: []memWrite{{Off: 1024, Data: sub}},
-			Out: []region{{Off: 2048, Len: uint32(32 * n)}, {Off: 4096, Len: 4}}, FD: -1, Valid: true}
-	}
 	const hour = uint64(3600) * 1e9
+	const year = 365 * 24 * hour
+	var probes []*probe
 	for _, e := range p.engines {
-		for _, withStdin := range []bool{false, true} {
-			name := fmt.Sprintf("%s stdin-sub=%v", e.name, withStdin)
-			subj, err := p.newInst(e, "sleep-probe "+name)
-			if err != nil {
-				cc.find("harness:instantiate", err.Error(), -1, e.name, nil, nil)
-				continue
-			}
-			c := mk(withStdin, hour)
-			r := subj.run(cc, 0, &c)
-			so.Probe[name] = r.Ret
-			so.Traces++
-			if r.Ret != "errno=0" && r.Ret != "blocked" {
-				cc.find("harness:sleep-probe", "poll_oneoff returned "+r.Ret, -1, name, r, nil)
-			}
-			subj.close()
-			if p.blockedCalls >= 2 {
-				return so
+		for _, f := range flavours {
+			for si, shape := range probeShapes {
+				for ti, timeout := range []uint64{hour, year} {
+					if shape == "sched_yield" && ti > 0 {
+						continue
+					}
+					if (si+ti)%2 == 1 && f.name == "value-only" {
+						continue // thin out the flavour that behaves like background
+					}
+					in, err := p.newInst(e, "real-sleep-probe")
+					if err != nil {
+						cc.find("harness:instantiate", err.Error(), -1, e.name, nil, nil)
+						continue
+					}
+					ctx, cancel := f.mk()
+					in.ctx, in.flavour = ctx, f.name
+					probes = append(probes, &probe{engine: e.name, flavour: f.name, shape: shape, timeout: timeout, in: in, cancel: cancel,
+						ctl: probeCall(shape, 0), subj: probeCall(shape, timeout)})
+				}
 			}
 		}
 	}
+	for _, pr := range probes {
+		go func(pr *probe) {
+			pr.ctlRet = rawCall(pr.in, &pr.ctl)
+			pr.ctlDone.Store(true)
+			pr.subjRet = rawCall(pr.in, &pr.subj)
+			pr.subjDone.Store(true)
+		}(pr)
+	}
+	pending := func() int {
+		n := 0
+		for _, pr := range probes {
+			if !pr.subjDone.Load() {
+				n++
+			}
+		}
+		return n
+	}
+	rounds := 0
+	var ctl *inst
+	ctlCall := probeCall("clock-relative-monotonic", 0)
+	start := time.Now() // paces the watchdog only
+	for pending() > 0 {
+		el := time.Since(start)
+		if (el >= probeWatchdog && rounds >= probeControlRounds) || el >= probeGiveUp {
+			break
+		}
+		if ctl == nil && len(p.engines) > 0 {
+			ctl, _ = p.newInst(p.engines[0], "real-sleep-control")
+		}
+		if ctl != nil && rawCall(ctl, &ctlCall) == "errno=0" {
+			rounds++
+		}
+		time.Sleep(time.Millisecond)
+	}
+	returned, flav, shapes := 0, map[string]int{}, map[string]int{}
+	var stuck []*probe
+	for _, pr := range probes {
+		flav[pr.flavour]++
+		shapes[pr.shape]++
+		if pr.subjDone.Load() {
+			returned++
+			want := "errno=0"
+			if strings.HasPrefix(pr.shape, "clock-absolute") {
+				want = "errno=58" // ENOTSUP, at once
+			}
+			if pr.subjRet != want || pr.ctlRet != want {
+				cc.find("harness:real-sleep-probe-result", fmt.Sprintf("%s/%s/%s: control %s, subject %s, expected %s", pr.engine, pr.flavour, pr.shape, pr.ctlRet, pr.subjRet, want), -1, pr.engine, nil, nil)
+			}
+			pr.in.close()
+			pr.cancel()
+			continue
+		}
+		stuck = append(stuck, pr)
+		switch {
+		case !pr.ctlDone.Load():
+			so.Inconcl = append(so.Inconcl, "real-sleep-probe:control-did-not-return")
+		case rounds < probeControlRounds:
+			so.Inconcl = append(so.Inconcl, "real-sleep-probe:process-too-slow-for-control-rounds")
+		default:
+			cc.findN(64, "real-sleep:"+pr.subj.Fn+":"+pr.flavour+":"+pr.shape,
+				fmt.Sprintf("%s engine: %s (%s, clock timeout %d ns) called under a %s context did not return although its control (same call, timeout 0, same instance) had returned and %d further control calls completed in the same process meanwhile: the default (fake) nanosleep is bypassed and the host really sleeps",
+					pr.engine, pr.subj.Fn, pr.shape, pr.timeout, pr.flavour, rounds),
+				0, pr.engine, map[string]any{"engine": pr.engine, "context": pr.flavour, "shape": pr.shape, "timeout_ns": pr.timeout, "call": pr.subj, "control_result": pr.ctlRet, "control_rounds": rounds},
+				"returns at once (control result "+pr.ctlRet+")")
+		}
+	}
+	// unblock what can be unblocked (cancellable contexts), then leave the rest behind
+	unblocked := 0
+	if len(stuck) > 0 {
+		for _, pr := range stuck {
+			pr.cancel()
+		}
+		for i := 0; i < 2000 && unblocked < len(stuck); i++ {
+			time.Sleep(time.Millisecond)
+			unblocked = 0
+			for _, pr := range stuck {
+				if pr.subjDone.Load() {
+					unblocked++
+				}
+			}
+		}
+	}
+	if ctl != nil {
+		ctl.close()
+	}
+	so.Traces = len(probes)
+	so.Probe = map[string]any{"probes": len(probes), "returned_at_once": returned, "not_returned": len(stuck), "returned_after_context_cancel": unblocked,
+		"control_rounds_while_waiting": rounds, "per_flavour": flav, "per_shape": shapes}
 	return so
 }
